@@ -33,7 +33,7 @@ def predicate_fields(P, cname: str, evs, w) -> set[str]:
     return fields
 
 
-def monitor_discipline(ctx, RM, skip_modules=(), only_classes=None) -> int:
+def monitor_discipline(ctx, RM, skip_modules=(), only_classes=None, announce_every_addition: bool = False) -> int:
     P = ctx.P
     thorough = ctx.tier == "thorough"
     LINUX_SKIP = skip_modules
@@ -98,6 +98,16 @@ def monitor_discipline(ctx, RM, skip_modules=(), only_classes=None) -> int:
                             mm = re.fullmatch(r"self\.(_\w+)\.(append|appendleft|extend|insert|set|add|put)", e.extra.get("func", ""))
                             if mm:
                                 writes.add(mm.group(1))
+                if announce_every_addition and notif and not any(x.kind == "wait" for p in ps for x in p.flat()):
+                    # a method that notifies does so on *every* path on which it adds to the predicate's state: a later addition that is
+                    # not announced leaves a waiter (also one in a timed wait that re-arms on every notify) unaware of it
+                    for p in ps:
+                        if p.outcome[0] == "raise":
+                            continue
+                        adds = {mm.group(1) for e in p.flat() if e.kind == "call" for mm in [re.fullmatch(r"self\.(_\w+)\.(append|appendleft|extend|insert|add|put)", e.extra.get("func", ""))] if mm}
+                        if adds & pred_fields and not any(e.kind == "notify" for e in p.flat()):
+                            ctx.viol(RM, f"{cname}.{mname}: every addition is announced", f"a path of {mname}() adds to {sorted(adds & pred_fields)} without notifying ({p.sig()[:100]}): the waiter is not told about that element", ci.methods[mname].loc)
+                            break
                 if notif:
                     ctx.check(bool(writes & pred_fields), RM, f"{cname}.{mname}: notifier writes the predicate", f"notifies after writing {sorted(writes)} but the tests the waiter makes under the lock before waiting read only {sorted(pred_fields)}: the waiter either re-checks an unchanged predicate and waits again, or has tested the written state before taking the lock — a notify that falls between that test and the wait is lost and the thread sleeps forever", ci.methods[mname].loc)
     ctx.count("untimed_waits", nwait)
